@@ -95,7 +95,14 @@ def ddl(dialect_name, fields):
     rows = [["D", "Format", "Delimited"]] + [field_row(f) for f in fields]
     cid = interface.Cid()
     cid.read("<c19>", rows)
-    return sql.SqlFactory(cid, "t", DMAP[dialect_name]).create_table_statement()
+    factory = sql.SqlFactory(cid, "t", DMAP[dialect_name])
+    first = factory.create_table_statement()
+    # the statement mirrors the CID every time it is asked for, and after the column descriptions were looked at
+    list(factory.sql_fields())
+    again = factory.create_table_statement()
+    if again != first:
+        return "-- asked a second time, the same factory answered differently:\n" + again
+    return first
 
 
 def parse(statement):
